@@ -36,7 +36,9 @@ size_t libwifi_create_radiotap(struct libwifi_radiotap_info *info, char *radiota
     uint32_t presence_bit = rtap_hdr.it_present;
     for (int field = 0; field < radiotap_ns.n_bits; field++) {
         if (presence_bit & 1) {
-            uint8_t padding = offset % radiotap_ns.align_size[field].align;
+            // Pad up to the next multiple of the field's alignment
+            uint8_t align = radiotap_ns.align_size[field].align;
+            uint8_t padding = (align - (offset % align)) % align;
             if (padding > 0) {
                 memset(rtap_data + offset, 0, padding);
                 offset += padding;
